@@ -45,8 +45,14 @@ pub(super) fn translate_operator(
     args: Vec<rq::Expr>,
     ctx: &mut Context,
 ) -> Result<SourceExpr> {
-    let (func_def, binding_strength, window_frame, coalesce) =
-        find_operator_impl(&name, ctx.dialect_enum).unwrap();
+    let Some((func_def, binding_strength, window_frame, coalesce)) =
+        find_operator_impl(&name, ctx.dialect_enum)
+    else {
+        return Err(Error::new_simple(format!(
+            "operator {} is not supported for dialect {}",
+            name, ctx.dialect_enum
+        )));
+    };
     let parent_binding_strength = binding_strength.unwrap_or(100);
 
     let params = func_def
